@@ -44,17 +44,17 @@ Proof.
 Qed.
 
 (* --- parseStringBytes inverts QuotedString --- *)
-Lemma parse_slow_esc1 bu c t :
-  parse_slow bu (esc1 c ++ t) = option_map (cons c) (parse_slow bu t).
+Lemma parse_slow_esc1 c t :
+  parse_slow (esc1 c ++ t) = option_map (cons c) (parse_slow t).
 Proof.
   destruct (128 <=? c) eqn:Hc.
   - rewrite (esc1_high _ Hc). destruct (high_facts _ Hc) as (E1 & E2 & E3).
     simpl. rewrite E2, E1, E3. reflexivity.
   - apply N.leb_gt in Hc.
-    enum128 Hc ltac:(simpl; destruct (parse_slow bu t); reflexivity).
+    enum128 Hc ltac:(simpl; destruct (parse_slow t); reflexivity).
 Qed.
 
-Lemma parse_slow_escape bu s : parse_slow bu (escape s) = Some s.
+Lemma parse_slow_escape s : parse_slow (escape s) = Some s.
 Proof.
   induction s as [|c r IH]; simpl; [reflexivity|].
   rewrite parse_slow_esc1, IH. reflexivity.
